@@ -25,3 +25,79 @@ package scan
 //@   ensures[C02] selected-sample: result3 == nil && result2 ==> result0 == it.sT[selJ] && result1 == it.sV[selJ]
 //@   ensures[C16] within-hinted-range: result2 ==> ts-offset-lookbackDelta <= result0 && result0 <= ts-offset
 //@   ensures[C18,C19] never-stale: result2 ==> !isstale(result1)
+
+// numberLiteralSelector: one series ({}), id 0, the literal at every step of the grid (C06), the
+// stream contract of C18 and the grid law of C07: a batch carries the steps
+// currentStep, currentStep+step, ... (at most numSteps of them, none beyond maxt).
+// The grid is stated recursively (first = cursor, next = previous + step) to stay linear.
+//@ func (*numberLiteralSelector).Next
+//@   requires ctx != nil && o != nil && o.vectorPool != nil && o.step >= 0 && o.numSteps >= 1
+//@   requires o.step == 0 ==> o.numSteps == 1
+//@   assigns scan.numberLiteralSelector.step, scan.numberLiteralSelector.currentStep, scan.numberLiteralSelector.series, scan.numberLiteralSelector.once, model.VectorPool.stepSize
+//@   ensures[C18] error-means-no-batch: result1 != nil ==> isnil(result0)
+//@   ensures[C07,C18] ended-iff-past-maxt: result1 == nil ==> (isnil(result0) <==> old(o.currentStep) > o.maxt)
+//@   ensures[C07,C18] batch-size: result1 == nil && !isnil(result0) ==> 1 <= len(result0) && len(result0) <= o.numSteps
+//@   ensures[C06,C07,C18] first-step-is-cursor: result1 == nil && !isnil(result0) ==> result0[0].T == old(o.currentStep)
+//@   ensures[C06,C07,C18] consecutive-steps: result1 == nil && !isnil(result0) ==> forall k in 1..len(result0) ::
+//@       result0[k].T == result0[k-1].T + old(o.step)
+//@   ensures[C07,C18] within-window: result1 == nil && !isnil(result0) ==> forall k in 0..len(result0) :: result0[k].T <= o.maxt
+//@   ensures[C07,C18] batch-is-maximal: result1 == nil && !isnil(result0) ==>
+//@       len(result0) == o.numSteps || result0[len(result0)-1].T + old(o.step) > o.maxt
+//@   ensures[C07,C18] cursor-advances: result1 == nil && !isnil(result0) ==>
+//@       o.currentStep == old(o.currentStep) + imax(old(o.step), 1) * o.numSteps
+//@   ensures[C06,C18] literal-sample: result1 == nil && !isnil(result0) ==> forall k in 0..len(result0) ::
+//@       len(result0[k].SampleIDs) == 1 && len(result0[k].Samples) == 1 &&
+//@       result0[k].SampleIDs[0] == 0 && result0[k].Samples[0] == o.val
+//@   loop 0 invariant count: 0 <= currStep && currStep <= o.numSteps && len(vectors) == currStep && !isnil(vectors)
+//@   loop 0 invariant ts-on-grid: (currStep == 0 ==> ts == old(o.currentStep)) && (currStep >= 1 ==> ts == vectors[currStep-1].T + o.step)
+//@   loop 0 invariant fields-kept: o.step == old(o.step) && o.numSteps == old(o.numSteps) && o.maxt == old(o.maxt) && o.val == old(o.val) && o.currentStep == old(o.currentStep) && o.vectorPool == old(o.vectorPool)
+//@   loop 0 invariant grid-so-far: (currStep >= 1 ==> vectors[0].T == old(o.currentStep)) &&
+//@       (forall k in 1..currStep :: vectors[k].T == vectors[k-1].T + o.step) &&
+//@       (forall k in 0..currStep :: vectors[k].T <= o.maxt)
+//@   loop 0 invariant samples-so-far: forall k in 0..currStep ::
+//@       len(vectors[k].SampleIDs) == 1 && len(vectors[k].Samples) == 1 &&
+//@       vectors[k].SampleIDs[0] == 0 && vectors[k].Samples[0] == o.val &&
+//@       allocated(vectors[k].SampleIDs) && allocated(vectors[k].Samples)
+//@   loop 0 invariant batch-allocated: allocated(vectors) && fresh(vectors)
+
+// Constructors: every field is taken from the option it is named after (C02, C03, C07). The
+// number of steps per batch is Options.NumSteps.
+//@ pred stepsOf(o) = ite(o.Step.Milliseconds() == 0, 1, imin(o.StepsBatch, (o.End.UnixMilli()-o.Start.UnixMilli())/o.Step.Milliseconds() + 1))
+//@ func NewVectorSelector
+//@   requires queryOpts != nil
+//@   assigns nothing
+//@   ensures[C02,C07,C11] fields-from-options: istype(result, *scan.vectorSelector) && fresh(result) &&
+//@       cast(result, *scan.vectorSelector).mint == queryOpts.Start.UnixMilli() &&
+//@       cast(result, *scan.vectorSelector).maxt == queryOpts.End.UnixMilli() &&
+//@       cast(result, *scan.vectorSelector).step == queryOpts.Step.Milliseconds() &&
+//@       cast(result, *scan.vectorSelector).currentStep == queryOpts.Start.UnixMilli() &&
+//@       cast(result, *scan.vectorSelector).lookbackDelta == queryOpts.LookbackDelta.Milliseconds() &&
+//@       cast(result, *scan.vectorSelector).offset == offset.Milliseconds() &&
+//@       cast(result, *scan.vectorSelector).numSteps == stepsOf(queryOpts) &&
+//@       cast(result, *scan.vectorSelector).shard == shard && cast(result, *scan.vectorSelector).numShards == numShards &&
+//@       cast(result, *scan.vectorSelector).storage == selector && cast(result, *scan.vectorSelector).vectorPool == pool
+//@   ensures[C17] no-storage-access: cast(result, *scan.vectorSelector).once == 0 && len(cast(result, *scan.vectorSelector).scanners) == 0
+
+//@ func NewMatrixSelector
+//@   requires opts != nil
+//@   assigns nothing
+//@   ensures[C03,C07,C11] fields-from-options: istype(result, *scan.matrixSelector) && fresh(result) &&
+//@       cast(result, *scan.matrixSelector).mint == opts.Start.UnixMilli() &&
+//@       cast(result, *scan.matrixSelector).maxt == opts.End.UnixMilli() &&
+//@       cast(result, *scan.matrixSelector).step == opts.Step.Milliseconds() &&
+//@       cast(result, *scan.matrixSelector).currentStep == opts.Start.UnixMilli() &&
+//@       cast(result, *scan.matrixSelector).selectRange == selectRange.Milliseconds() &&
+//@       cast(result, *scan.matrixSelector).offset == offset.Milliseconds() &&
+//@       cast(result, *scan.matrixSelector).numSteps == stepsOf(opts) &&
+//@       cast(result, *scan.matrixSelector).shard == shard && cast(result, *scan.matrixSelector).numShards == numShard &&
+//@       cast(result, *scan.matrixSelector).storage == selector && cast(result, *scan.matrixSelector).vectorPool == pool &&
+//@       cast(result, *scan.matrixSelector).funcExpr == funcExpr && ref(cast(result, *scan.matrixSelector).call) == ref(call)
+//@   ensures[C17] no-storage-access: cast(result, *scan.matrixSelector).once == 0 && len(cast(result, *scan.matrixSelector).scanners) == 0
+
+//@ func NewNumberLiteralSelector
+//@   requires opts != nil
+//@   assigns nothing
+//@   ensures[C06,C07] fields-from-options: result != nil && fresh(result) &&
+//@       result.mint == opts.Start.UnixMilli() && result.maxt == opts.End.UnixMilli() &&
+//@       result.step == opts.Step.Milliseconds() && result.currentStep == opts.Start.UnixMilli() &&
+//@       result.numSteps == stepsOf(opts) && result.val == val && result.vectorPool == pool && result.once == 0
